@@ -1,7 +1,118 @@
 import PydlVerif.Model.JsonUtil
+import PydlVerif.Model.EnvIR
 open Lean
 namespace PydlVerif.Driver.C20
+open PydlVerif PydlVerif.EnvIR
 
-def handle (_j : Json) : Except String Json := throw "C20: no model operations yet"
+/-- JSON form of the IR (written by harness/xlate/c20_envir.py): `["seq", a, b]`, `["fault", 3]`, ... -/
+partial def stmt (j : Json) : Except String Stmt := do
+  let a ← J.arr j
+  if a.size = 0 then throw "stmt: empty array"
+  let tag ← J.str a[0]!
+  let arg (i : Nat) : Except String Json :=
+    if i < a.size then pure a[i]! else throw s!"stmt {tag}: missing argument {i}"
+  match tag with
+  | "skip" => pure .skip
+  | "raise" => pure .raise
+  | "ret" => pure .ret
+  | "fault" => do pure (.fault (← J.nat (← arg 1)))
+  | "need" => do pure (.need (← J.str (← arg 1)))
+  | "save" => do pure (.save (← J.str (← arg 1)) (← J.str (← arg 2)))
+  | "load" => do pure (.load (← J.str (← arg 1)) (← J.str (← arg 2)))
+  | "setNone" => do pure (.setNone (← J.str (← arg 1)))
+  | "kill" => do pure (.kill (← J.str (← arg 1)) (← J.nat (← arg 2)))
+  | "del" => do pure (.del (← J.str (← arg 1)))
+  | "pop" => do pure (.pop (← J.str (← arg 1)))
+  | "setExpr" => do pure (.setExpr (← J.str (← arg 1)) (← J.nat (← arg 2)))
+  | "setFrom" => do pure (.setFrom (← J.str (← arg 1)) (← J.str (← arg 2)))
+  | "seq" => do pure (.seq (← stmt (← arg 1)) (← stmt (← arg 2)))
+  | "choice" => do pure (.choice (← J.nat (← arg 1)) (← stmt (← arg 2)) (← stmt (← arg 3)))
+  | "ifNone" => do pure (.ifNone (← J.str (← arg 1)) (← stmt (← arg 2)) (← stmt (← arg 3)))
+  | "ifSet" => do pure (.ifSet (← J.str (← arg 1)) (← stmt (← arg 2)) (← stmt (← arg 3)))
+  | "loop" => do pure (.loop (← J.nat (← arg 1)) (← stmt (← arg 2)))
+  | "tryFinally" => do pure (.tryFinally (← stmt (← arg 1)) (← stmt (← arg 2)))
+  | "tryExcept" => do pure (.tryExcept (← J.nat (← arg 1)) (← stmt (← arg 2)) (← stmt (← arg 3)))
+  | "scope" => do pure (.scope (← stmt (← arg 1)))
+  | t => throw s!"stmt: unknown tag {t}"
+
+def optStr (j : Json) : Except String (Option String) := J.optional J.str j
+
+def binding (j : Json) : Except String (String × Option String) := do
+  match ← J.arr j with
+  | #[k, v] => pure (← J.str k, ← optStr v)
+  | _ => throw "binding: need [name, value]"
+
+def natPair (j : Json) : Except String (Nat × Nat) := do
+  match ← J.arr j with
+  | #[a, b] => pure (← J.nat a, ← J.nat b)
+  | _ => throw "need [nat, nat]"
+
+def lookup (l : List (String × Option String)) (k : String) : Option String :=
+  match l.find? (·.1 = k) with
+  | some (_, v) => v
+  | none => none
+
+/-- oracle from its JSON description:
+`T` point ids whose flag is true at every visit, `Tt` (tick, id) pairs that are true in addition,
+`iters` (loop id, count), `none` / `other` ids of opaque expressions whose value is None / not a
+string (every other opaque expression has the string value `<id>`). -/
+def oracle (j : Json) : Except String Oracle := do
+  let T ← (J.fOpt (J.list J.nat) j "T")
+  let Tt ← (J.fOpt (J.list natPair) j "Tt")
+  let its ← (J.fOpt (J.list natPair) j "iters")
+  let nn ← (J.fOpt (J.list J.nat) j "none")
+  let oo ← (J.fOpt (J.list J.nat) j "other")
+  let T := T.getD []; let Tt := Tt.getD []; let its := its.getD []; let nn := nn.getD []; let oo := oo.getD []
+  pure { flag := fun t i => T.contains i || Tt.contains (t, i),
+         iters := fun _ i => match its.find? (·.1 = i) with | some (_, n) => n | none => 0,
+         val := fun _ i => if nn.contains i then .none else if oo.contains i then .other else .str s!"<{i}>" }
+
+def outcomeJ : Outcome → Json
+  | .ok => "ok" | .raised => "raised" | .ret => "ret"
+
+def optJ : Option String → Json
+  | none => Json.null
+  | some s => Json.str s
+
+def absJ : Option Abs → Json
+  | none => Json.null
+  | some a => Json.mkObj [("dirty", J.ofList Json.str a.dirty),
+      ("holds", J.ofList (fun p => Json.arr #[Json.str p.1, Json.str p.2]) a.holds),
+      ("isNone", J.ofList Json.str a.isNone), ("isStr", J.ofList Json.str a.isStr)]
+
+def handle (j : Json) : Except String Json := do
+  let op ← J.fStr j "op"
+  match op with
+  | "run" =>
+    -- run the IR term under an oracle from an initial environment; report the listed variables
+    let p ← stmt (← J.fld j "prog")
+    let env ← J.list binding (← J.fld j "env")
+    let vars ← J.list J.str (← J.fld j "vars")
+    let o ← oracle (← J.fld j "oracle")
+    let r := run o p ⟨lookup env, fun _ => .other, 0⟩
+    pure (Json.mkObj [("outcome", outcomeJ r.2),
+                      ("env", J.ofList (fun v => Json.arr #[Json.str v, optJ (r.1.env v)]) vars),
+                      ("ticks", J.ofNat r.1.tick)])
+  | "runs" =>
+    -- many runs of one program: cases = [{"env": [...], "oracle": {...}}, ...]
+    let p ← stmt (← J.fld j "prog")
+    let vars ← J.list J.str (← J.fld j "vars")
+    let cases ← J.list pure (← J.fld j "cases")
+    let outs ← cases.mapM (fun c => do
+      let env ← J.list binding (← J.fld c "env")
+      let o ← oracle (← J.fld c "oracle")
+      let r := run o p ⟨lookup env, fun _ => .other, 0⟩
+      pure (Json.mkObj [("outcome", outcomeJ r.2),
+                        ("env", J.ofList (fun v => Json.arr #[Json.str v, optJ (r.1.env v)]) vars)]))
+    pure (Json.arr outs.toArray)
+  | "check" =>
+    -- the checker on the JSON form, the canonical rendering, and the analysis result
+    let p ← stmt (← J.fld j "prog")
+    let vs ← J.list J.str (← J.fld j "vars")
+    let r := ana p Abs.init
+    pure (Json.mkObj [("restores", Json.bool (restores p vs)), ("render", Json.str (render p)),
+                      ("writes", J.ofList Json.str (writes p)), ("assigns", J.ofList Json.str (assigns p)),
+                      ("normal", absJ r.1), ("abrupt", absJ r.2)])
+  | _ => throw s!"C20: unknown op {op}"
 
 end PydlVerif.Driver.C20
